@@ -46,6 +46,9 @@ pub fn shape_class(shape: &str) -> &'static str {
     if shape.starts_with("wide-") || shape == "flow-closed-200" || shape.starts_with("family:") {
         return "wide";
     }
+    if shape.starts_with("bytes:") {
+        return "bytes";
+    }
     match shape {
         "seq" | "expkey" | "alt" | "mapnl" | "seq-then-flow" | "seq-dedent" => "block",
         "flowseq" | "flowseq-closed" | "flowmap" | "flowmix" => "flow",
@@ -278,7 +281,83 @@ impl<'a> SpannedEventReceiver<'a> for Sink {
     }
 }
 
+/// Byte patterns for the decoder (C18's stack sub-check): `n` repetitions of a malformed or
+/// valid unit between `a: ` and `b`.
+pub const BYTE_PATTERNS: [&str; 6] = ["ff-run", "truncated-run", "utf16-lone-surrogates", "utf16-odd", "valid-cjk-utf8", "valid-cjk-utf16"];
+pub fn bytes_for(pattern: &str, n: usize) -> Vec<u8> {
+    let mut v = Vec::with_capacity(4 * n + 16);
+    match pattern {
+        "ff-run" => {
+            v.extend_from_slice(b"a: ");
+            v.extend(std::iter::repeat(0xFFu8).take(n));
+            v.extend_from_slice(b"b\n");
+        }
+        "truncated-run" => {
+            v.extend_from_slice(b"a: ");
+            for _ in 0..n {
+                v.extend_from_slice(&[0xE4, 0xB8, b'x']);
+            }
+            v.extend_from_slice(b"\n");
+        }
+        "utf16-lone-surrogates" => {
+            v.extend_from_slice(&[0xFF, 0xFE, b'a', 0, b':', 0, b' ', 0]);
+            for _ in 0..n {
+                v.extend_from_slice(&[0x3D, 0xD8, b'x', 0]);
+            }
+            v.extend_from_slice(&[b'\n', 0]);
+        }
+        "utf16-odd" => {
+            v.extend_from_slice(&[b'a', 0, b':', 0, b' ', 0]);
+            for _ in 0..n {
+                v.extend_from_slice(&[b'x', 0]);
+            }
+            v.push(0x41);
+        }
+        "valid-cjk-utf8" => {
+            v.extend_from_slice(b"a: ");
+            for _ in 0..n {
+                v.extend_from_slice(&[0xE4, 0xB8, 0xAD]);
+            }
+            v.push(b'\n');
+        }
+        _ => {
+            v.extend_from_slice(&[0xFE, 0xFF, 0, b'a', 0, b':', 0, b' ']);
+            for _ in 0..n {
+                v.extend_from_slice(&[0x4E, 0x2D]);
+            }
+            v.extend_from_slice(&[0, b'\n']);
+        }
+    }
+    v
+}
+
+fn count_trap(_: u8, _: u8, _: &[u8], output: &mut String) -> std::ops::ControlFlow<std::borrow::Cow<'static, str>> {
+    output.push('\u{FFFD}');
+    std::ops::ControlFlow::Continue(())
+}
+
+fn decoder_scenario(pattern: &str, n: usize, api: &str) -> String {
+    use saphyr::{YAMLDecodingTrap, YamlDecoder};
+    let bytes = bytes_for(pattern, n);
+    let trap = match api {
+        "decode:ignore" => YAMLDecodingTrap::Ignore,
+        "decode:replace" => YAMLDecodingTrap::Replace,
+        "decode:call" => YAMLDecodingTrap::Call(count_trap),
+        _ => YAMLDecodingTrap::Strict,
+    };
+    let mut dec = YamlDecoder::read(std::io::Cursor::new(bytes));
+    dec.encoding_trap(trap);
+    let out = match dec.decode() {
+        Ok(d) => format!("OK {} documents", d.len()),
+        Err(e) => format!("ERR {}", e.to_string().chars().take(80).collect::<String>()),
+    };
+    out
+}
+
 fn scenario(shape: &str, depth: usize, api: &str) -> String {
+    if let Some(pattern) = shape.strip_prefix("bytes:") {
+        return decoder_scenario(pattern, depth, api);
+    }
     fn fin<T>(r: Result<Vec<T>, saphyr::ScanError>) -> String {
         match r {
             Ok(d) => {
@@ -840,6 +919,123 @@ pub fn run(cfg: &Config) -> i32 {
         cfg.tier, cfg.seed, cfg.profile, results.len(), wall, counts, known_hit.len()
     );
     exit
+}
+
+/// C18's stack sub-check: long runs of malformed (and of valid expanding) input through every
+/// trap, in child processes on the 256 KiB and 8 MiB stacks. Decoding is a loop: its stack use
+/// must not depend on how many malformed sequences the input holds.
+pub fn decoder_grid(cfg: &Config) -> (i32, J) {
+    let t0 = Instant::now();
+    let thorough = cfg.tier == "thorough";
+    let mut scns = Vec::new();
+    for p in BYTE_PATTERNS {
+        for trap in ["decode:strict", "decode:ignore", "decode:replace", "decode:call"] {
+            for stack in ["@256k", ""] {
+                let mut ns = vec![100_000usize];
+                if thorough {
+                    ns.push(1_000_000);
+                    ns.push(1000);
+                }
+                for n in ns {
+                    scns.push(Scn { shape: format!("bytes:{p}"), depth: n, api: format!("{trap}{stack}") });
+                }
+            }
+        }
+    }
+    let scns = Arc::new(scns);
+    let results: Arc<Mutex<Vec<(usize, Obs)>>> = Arc::new(Mutex::new(Vec::new()));
+    let next = Arc::new(AtomicUsize::new(0));
+    let mut hs = Vec::new();
+    for _ in 0..cfg.jobs {
+        let (scns, results, next) = (scns.clone(), results.clone(), next.clone());
+        hs.push(std::thread::spawn(move || loop {
+            let k = next.fetch_add(1, Ordering::SeqCst);
+            if k >= scns.len() {
+                break;
+            }
+            let o = observe(&scns[k]);
+            results.lock().unwrap().push((k, o));
+        }));
+    }
+    for h in hs {
+        let _ = h.join();
+    }
+    let mut results = results.lock().unwrap().clone();
+    results.sort_by_key(|r| r.0);
+    let mut counts: BTreeMap<String, u64> = BTreeMap::new();
+    let mut bad: Vec<(Scn, String, String)> = Vec::new();
+    for (k, o) in &results {
+        let s = &scns[*k];
+        let (kind, text) = match o {
+            Obs::Ok(l) => ("ok", l.clone()),
+            Obs::Err(l) => ("error-value", l.clone()),
+            Obs::Crash(l) => ("CRASH", l.clone()),
+            Obs::Panic => ("PANIC", "scenario panicked".into()),
+            Obs::Hang => ("HANG", "no exit within the per-scenario wall-clock limit".into()),
+            Obs::Harness(l) => ("harness", l.clone()),
+        };
+        *counts.entry(kind.to_string()).or_default() += 1;
+        match o {
+            Obs::Ok(_) | Obs::Err(_) => {}
+            Obs::Harness(l) => {
+                eprintln!("harness error: decoder scenario {s:?}: {l}");
+                return (2, J::Null);
+            }
+            _ => {
+                let class = match o {
+                    Obs::Crash(_) => "CRASH(signal)",
+                    Obs::Panic => "PANIC",
+                    _ => "HANG(watchdog)",
+                };
+                bad.push((s.clone(), class.to_string(), format!("{class}: decoding {} x {} through {} ({text})", s.shape, s.depth, s.api)));
+            }
+        }
+    }
+    bad.sort_by_key(|v| match v.1.as_str() {
+        "CRASH(signal)" => 0,
+        "PANIC" => 1,
+        _ => 2,
+    });
+    let mut exit = 0;
+    let mut vj = J::Null;
+    if let Some((s, class, detail)) = bad.first() {
+        // smallest run length that still crashes
+        let (mut lo, mut hi, mut steps) = (1usize, s.depth, 0u64);
+        while lo < hi && steps < 24 && class != "HANG(watchdog)" {
+            let mid = lo + (hi - lo) / 2;
+            steps += 1;
+            if matches!(observe(&Scn { shape: s.shape.clone(), depth: mid, api: s.api.clone() }), Obs::Crash(_) | Obs::Panic) {
+                hi = mid;
+            } else {
+                lo = mid + 1;
+            }
+        }
+        let case = Case { prop: "C11".into(), shape: s.shape.clone(), depth: hi, api: s.api.clone(), gen: "decoder-grid".into(), ..Case::default() };
+        let path = format!("{}/replays/C18-{}-stack-{}-{}-{}.json", cfg.verif_dir, cfg.seed, s.shape.replace(':', "_"), s.api.replace([':', '@'], "_"), hi);
+        let mut rj = crate::batch::replay_json(cfg, 0, &case, class, detail, None, steps);
+        rj.set("property", J::str("C18"));
+        let _ = std::fs::create_dir_all(format!("{}/replays", cfg.verif_dir));
+        if std::fs::write(&path, rj.to_pretty()).is_err() {
+            eprintln!("harness error: cannot write {path}");
+            return (2, J::Null);
+        }
+        println!("violation class={class} detail={detail} (minimised run length {hi})");
+        println!("VIOLATION property=C18 replay={path}");
+        vj = J::obj().with("class", J::str(class)).with("detail", J::str(detail)).with("replay", J::str(&path));
+        exit = 1;
+    }
+    let wall = t0.elapsed().as_secs_f64();
+    println!("C18 decoder stack sub-check: {} scenarios ({} byte patterns x 4 traps x 2 stacks) in {:.1}s: {:?}", results.len(), BYTE_PATTERNS.len(), wall, counts);
+    let mut ev = J::obj();
+    ev.set("scenarios", J::int(results.len()));
+    ev.set("patterns", J::Arr(BYTE_PATTERNS.iter().map(|p| J::str(p)).collect()));
+    ev.set("stacks", J::Arr(vec![J::str("256 KiB"), J::str("8 MiB")]));
+    ev.set("observations", J::from_counts(&counts));
+    ev.set("wall_s", J::Float(wall));
+    if vj != J::Null {
+        ev.set("violation", vj);
+    }
+    (exit, ev)
 }
 
 /// Tool mode: for every (shape, API) that crashes at depth 10^5, bisect the smallest crashing
